@@ -36,8 +36,16 @@ func main() {
 		}
 		ctx.Discharge(sc)
 		bad := 0
+		if len(ctx.VacuousSites) > 0 {
+			fmt.Println("  VACUOUS: no satisfiable path continues after", ctx.VacuousSites)
+		}
 		for _, o := range ctx.Obls {
-			if o.Kind == "canary" { continue }
+			if o.Kind == "canary" {
+				if o.Verdict == "unsat" {
+					fmt.Printf("  VACUOUS: return at line %d is unreachable @ %s\n", o.Pos.Line, o.Path)
+				}
+				continue
+			}
 			if o.Verdict != "unsat" || *dump {
 				fmt.Printf("  [%s %s %.2fs] %s @ %s\n", o.Verdict, o.Solver, o.TimeS, o.Name, o.Path)
 				if o.Verdict != "unsat" {
